@@ -126,7 +126,7 @@ def rand_frame(rng, zero_origin=False):
     return ps, o, d
 
 STYLES = ["random", "random", "random", "single", "ring", "full", "two", "interior"]
-GRID_OPS = ["from_mask", "dg_all_false", "dg_unmasked", "dg_edge", "dg_border", "blurring", "padded", "trimmed_array", "over", "sub_grid",
+GRID_OPS = ["from_mask", "dg_all_false", "dg_unmasked", "dg_edge", "dg_border", "blurring", "padded", "trimmed_array", "subtracted", "over", "sub_grid",
             "resized", "centre", "extent", "zoom_unmasked", "zoomed_around", "zoom_props", "radial", "overlay",
             "pixel_coords", "pixel_grids", "scaled_of_pixels", "rect_mapper",
             "ds_apply_mask", "ds_noise_scaling", "ds_over_sampling", "ds_trimmed", "ds_simulate", "ds_s2n"]
@@ -255,6 +255,14 @@ def op_trimmed_array(aa, m, ps, o, dd, prm):
         rel += [("geom", geom_of(ub.mask)), ("inv", [float(v) for v in np.array(ub.native).ravel()])]
     pml = [[False] * PW for _ in range(PH)]
     return {"coq": [f"(KGeom (MTrimmedArray {cz(ish[0])} {cz(ish[1])}) {cM(pml, ps, o)} (Some {cgeom(ge)}))"], "rel": rel, "show": str(ge)}
+
+def op_subtracted(aa, m, ps, o, dd, prm):
+    mask = mk_mask(aa, m, ps, o)
+    off = prm["off"]
+    sg = aa.Grid2D.from_mask(mask=mask).subtracted_from(offset=(fl(off[0]), fl(off[1])))
+    g = grid_out(sg); ge = geom_of(sg.mask)
+    return {"coq": [kgrid(f"(GSubtracted {cpt(off)})", m, ps, o, g), f"(KGeom (MSubtracted {cpt(off)}) {cM(m, ps, o)} (Some {cgeom(ge)}))"],
+            "rel": [("grid", g), ("geom", ge)], "show": jg(g[:4])}
 
 def op_over(entry):
     def f(aa, m, ps, o, dd, prm):
@@ -474,7 +482,7 @@ OPS = {
     "dg_all_false": op_simple(lambda p: "GAllFalse", lambda aa, mask, p: mask.derive_grid.all_false),
     "dg_unmasked": op_simple(lambda p: "GFromMask", lambda aa, mask, p: mask.derive_grid.unmasked),
     "dg_edge": op_sel("edge"), "dg_border": op_sel("border"),
-    "blurring": op_blurring, "padded": op_padded, "trimmed_array": op_trimmed_array, "over": op_over("over"), "sub_grid": op_over("sub_grid"), "resized": op_resized,
+    "blurring": op_blurring, "padded": op_padded, "trimmed_array": op_trimmed_array, "subtracted": op_subtracted, "over": op_over("over"), "sub_grid": op_over("sub_grid"), "resized": op_resized,
     "centre": op_centre, "extent": op_extent, "zoom_unmasked": op_zoom_unmasked, "zoomed_around": op_zoomed_around,
     "zoom_props": op_zoom_props, "radial": op_radial, "overlay": op_overlay, "pixel_coords": op_pixel_coords,
     "pixel_grids": op_pixel_grids, "scaled_of_pixels": op_scaled_of_pixels, "rect_mapper": op_rect_mapper,
@@ -495,6 +503,7 @@ def nun_of(m): return sum(1 for r in m for b in r if not b)
 PARAMS = {
     "blurring": lambda rng, m, ps: {"k": (3, 3) if rng.random() < 0.6 else (odd(rng, 3), odd(rng, 3))},
     "padded": lambda rng, m, ps: {"k": (odd(rng, 7), odd(rng, 7))},
+    "subtracted": lambda rng, m, ps: {"off": (ps[0] * F(rng.randint(-8, 8), 4), ps[1] * F(rng.randint(-8, 8), 4)) if rng.random() < 0.9 else (F(0), F(0))},
     "trimmed_array": lambda rng, m, ps: {"k": (odd(rng, 7), odd(rng, 7)),
                                          "image_shape": None if rng.random() < 0.7 else (rng.randint(1, len(m)), rng.randint(1, len(m[0])))},
     "over": lambda rng, m, ps: (lambda u: {"uniform": u, "subs": [rng.choice([1, 2, 4])] * nun_of(m) if u else [rng.choice([1, 2, 4]) for _ in range(nun_of(m))]})(rng.random() < 0.4),
